@@ -468,4 +468,71 @@ def Proc.restart (p : Proc) : Proc :=
                 node := bootNode p.node.id p.startLearner p.image p.node.lli p.node.llt p.node.pubs
                 memb := Memb.mk' p.memb.self p.initial }
 
+/-! ### the internal event queue (`raft.rs`: `drain_internal_events`, `process_internal_events`,
+    `handle_internal_event(NotifyNewCommitIndex)`) -/
+
+/-- the internal events that touch term, role or the leader-change watch -/
+inductive IEv where
+  | commitIdx (k : Nat)                 -- NotifyNewCommitIndex
+  | noopCommitted (t : Nat)             -- NoopCommitted{term}
+  | becomeFollower (lid : Option Nat)
+  | becomeCandidate
+  | leaderDiscovered (l t : Nat)
+  | higherTermReply (t : Nat)           -- AppendResult whose response carries a higher term
+deriving DecidableEq, Repr
+
+structure IQ where
+  node : Node
+  buffer : List IEv                     -- buffered_internal_event
+  channel : List IEv                    -- internal_event_rx
+  log : List (Role × Nat × Option Pub)  -- after each handled event: role, term, value published by it (newest first)
+deriving Repr
+
+/-- `NotifyNewCommitIndex`: merge the commit notifications that follow in the channel (at most `maxBatch` in all);
+    the first event of another kind is taken out of the channel and — since fix a9db8e0 — appended to the buffer,
+    i.e. it keeps its place in front of everything still in the channel.  `resend = true` is the rule before the fix:
+    the event was sent to the channel again, i.e. moved behind everything queued after it. -/
+def mergeCommits (resend : Bool) : Nat → List IEv → List IEv → List IEv × List IEv
+  | 0, buffer, channel => (buffer, channel)
+  | _ + 1, buffer, [] => (buffer, [])
+  | fuel + 1, buffer, .commitIdx _ :: rest => mergeCommits resend fuel buffer rest
+  | _ + 1, buffer, other :: rest => if resend then (buffer, rest ++ [other]) else (buffer ++ [other], rest)
+
+/-- `handle_internal_event` for one event; a publication is recognised by the growth of `pubs` -/
+def handleIEv (resend : Bool) (maxBatch : Nat) (q : IQ) (e : IEv) : IQ :=
+  let (n', buffer', channel') : Node × List IEv × List IEv :=
+    match e with
+    | .commitIdx _ =>
+      let (b, c) := mergeCommits resend (maxBatch - 1) q.buffer q.channel
+      (q.node, b, c)
+    | .noopCommitted t => (noopCommitted q.node t, q.buffer, q.channel)
+    | .becomeFollower lid => (becomeFollower q.node lid, q.buffer, q.channel)
+    | .becomeCandidate => (becomeCandidate q.node, q.buffer, q.channel)
+    | .leaderDiscovered l t => (leaderDiscovered q.node l t, q.buffer, q.channel)
+    | .higherTermReply t =>
+      -- leader_state.rs handle_append_result: adopt the term now, `BecomeFollower(None)` goes to the channel tail
+      match q.node.role with
+      | .leader => if t > q.node.term then ({ q.node with term := t }, q.buffer, q.channel ++ [.becomeFollower none])
+                   else (q.node, q.buffer, q.channel)
+      | _ => (q.node, q.buffer, q.channel)
+  let published : Option Pub := if n'.pubs.length > q.node.pubs.length then n'.pubs.head? else none
+  { node := n', buffer := buffer', channel := channel', log := (n'.role, n'.term, published) :: q.log }
+
+/-- the loop: process the buffer; when it is empty, receive + drain (`1 + maxBatch` events at most) and go on -/
+def runIQ (resend : Bool) (maxBatch : Nat) : Nat → IQ → IQ
+  | 0, q => q
+  | fuel + 1, q =>
+    match q.buffer with
+    | e :: rest => runIQ resend maxBatch fuel (handleIEv resend maxBatch { q with buffer := rest } e)
+    | [] =>
+      match q.channel with
+      | [] => q
+      | _ => runIQ resend maxBatch fuel { q with buffer := q.channel.take (maxBatch + 1), channel := q.channel.drop (maxBatch + 1) }
+
+/-- a node announces itself as leader only while it holds the role -/
+def selfAnnounceOK (self : Nat) (log : List (Role × Nat × Option Pub)) : Bool :=
+  log.all fun x => match x.2.2 with
+    | some (some (l, _)) => !(l == self) || x.1 == .leader
+    | _ => true
+
 end DEngine.Elect
